@@ -380,7 +380,9 @@ def call_bounded(sess: Session):
     inventory = [('n', ['glass']), ('n', ['miss']), ('a', ['free']), ('v', ['see', 'saw']), ('n', ['ox', 'oxen']),
                  ('v', ['run', 'ran']), ('n', ['goose', 'geese']), ('v', ['goose']), ('s', ['big']), ('n', ['saw']),
                  ('v', ['dress']), ('n', ['dress']), ('a', ['well', 'better']), ('a', ['good', 'better']),
-                 ('c', ['and', "an'"]), ('n', ['and']), ('p', ['of'])]
+                 ('c', ['and', "an'"]), ('n', ['and']), ('p', ['of']),
+                 # 'leaves' is listed by leaf AND is leave + s; 'dying' is listed by die AND is dye + ing
+                 ('n', ['leaf', 'leaves']), ('n', ['leave']), ('v', ['die', 'dying', 'dyes']), ('v', ['dye'])]
     inventory = [(p, [F(x, script='Latn') if (k + n) % 2 else F(x) for k, x in enumerate(fs)] if F is not str else fs)
                  for n, (p, fs) in enumerate(inventory)]
     inventory[0] = ('n', [F('glass', id='f1', script='Latn')] if F is not str else ['glass'])
@@ -392,7 +394,7 @@ def call_bounded(sess: Session):
         for o in fs[1:]:
             exc.setdefault(p, {}).setdefault(str(o), set()).add(str(fs[0]))
     other_pos = []        # known finding K23: words of a part of speech without detachment rules are ignored
-    for q in queries + ['saw', 'oxen', 'ran', 'geese', 'better', 'and', "an'", 'of']:
+    for q in queries + ['saw', 'oxen', 'ran', 'geese', 'better', 'and', "an'", 'of', 'leaves', 'dying', 'dyes']:
         for pos in (None, 'n', 'v', 'a', 's', 'r', 'x', 'c', 'p'):
             cases += 1
             got, want = ini(q, pos), reference(q, pos, lemmas, exc)
